@@ -23,6 +23,7 @@ import (
 	"strconv"
 	"strings"
 	"sync"
+	"sync/atomic"
 	"testing"
 	"time"
 
@@ -507,8 +508,13 @@ func (r *vpRunner) start(h vpOp) {
 	b := balancer.Get(Name).Build(r.cc, balancer.BuildOptions{})
 	r.gb = b.(*gcpBalancer)
 	r.cc.gb = r.gb
-	// H min max wm fb ums ucalls rr cfgnil
+	// H min max wm fb ums ucalls rr cfgnil [cursor]
 	a := h.a
+	if len(a) > 8 {
+		// state injection (only in hand-written corpus histories): start with the round-robin cursor at a
+		// given value, to reach the neighbourhood of its 32-bit wrap without 2^32 calls
+		atomic.StoreUint32(&r.gb.rrRefId, uint32(a[8]))
+	}
 	r.cfg = &GCPBalancerConfig{}
 	if a[7] == 0 {
 		strategy := pb.ChannelPoolConfig_UNSPECIFIED
